@@ -168,18 +168,22 @@ func (t *Teamserver) ListenerRemove(Name string) ([]*Listener, []packager.Packag
 
 			t.Listeners = append(t.Listeners[:i], t.Listeners[i+1:]...)
 
+			// drop every retained "listener added" event of this listener (an operator's
+			// request and the listener's own announcement are both on the list)
+			var Retained []packager.Package
 			for EventID := range t.EventsList {
 				if t.EventsList[EventID].Head.Event == packager.Type.Listener.Type {
 					if t.EventsList[EventID].Body.SubEvent == packager.Type.Listener.Add {
 						if name, ok := t.EventsList[EventID].Body.Info["Name"]; ok {
 							if name == Name {
-								t.EventsList = append(t.EventsList[:EventID], t.EventsList[EventID+1:]...)
-								return t.Listeners, t.EventsList
+								continue
 							}
 						}
 					}
 				}
+				Retained = append(Retained, t.EventsList[EventID])
 			}
+			t.EventsList = Retained
 
 			return t.Listeners, t.EventsList
 		}
